@@ -37,33 +37,47 @@ TECHNIQUE = (
 
 META = {
     "explanation": (
-        "R1: every front-end entry (a function that builds a markdown-it parser with a docutils-document renderer and calls "
-        "its render) is followed, on every path to its normal exit, by the raw filter: a branch taken exactly when the "
-        "document's raw_enabled setting is false, looping over all nodes.raw of the whole document and replacing each, "
-        "unconditionally, by a reporter warning. R2: no function reachable from a transform / post-transform, or from what "
-        "the entry calls after the filter, constructs nodes.raw; every construction in the package is in a render-phase "
-        "function or unreachable. R3: in the include mock every call that reads the file system (directly or through "
-        "callees) is dominated by the file_insertion_enabled test whose failing branch raises DirectiveError at warning "
-        "level; every other file-system read in the package is unreachable from run_directive (search stopped where "
-        "markdown text re-enters the renderer; the inventory loader, fed from global-only configuration, is listed). R4: the nested rST parse of eval-rst runs on a document whose "
-        "settings object is the outer document's (or a copy / a complete fill of it; a setdefault merge is not); every mock handed to "
-        "directives/roles exposes the renderer's real document. R1 also requires that the filter's test is a truth test (an identity "
-        "test `is False` lets the legal value 0 through) and that nodes are not removed while docutils' lazy findall() generator walks "
-        "the tree. R5: no store, setattr, override-dict entry or keyword argument in the package gives either switch a value other than False."
+        "R1: every front end - a function that obtains a markdown-it parser for a docutils-document renderer from create_md_parser "
+        "(directly, through a factory/cache wrapper or a helper that returns it) and calls its render - is followed, on every path to "
+        "the normal exit, by the raw filter; the filter may sit in that function, in a helper that is always called afterwards, after "
+        "the call in the callers, or at the end of the renderer's render(). The filter is a branch taken exactly when the document's "
+        "raw_enabled is false (truth or ==/!= test; an identity test `is False` is rejected because 0 is a legal value; no extra "
+        "conjunct), looping over all docutils.nodes.raw of the whole document (traverse/findall, no descend=False), and on every "
+        "iteration replacing or removing the node - a skip is accepted only for detached nodes or a tautological type test, any other "
+        "skip (by the node's content, a local derived from it, or configuration) is a violation; nodes are not removed while the lazy "
+        "findall() generator walks the tree; the replacement can never be None (Element.replace(old, None) is a no-op: nullable "
+        "helpers such as create_warning need a guard with a fallback) and is a warning-level reporter message. "
+        "R2: no function reachable from a registered transform / post-transform / Sphinx event handler, or from what the entry calls "
+        "after the filter, constructs nodes.raw (directly, through an alias or a package subclass); every construction is in a "
+        "render-phase function or unreachable. Reachability includes the renderer's dynamic dispatch wherever it is written. "
+        "R3: in the include mock every call that reads the file system (directly or through callees) is dominated by the "
+        "file_insertion_enabled truth test whose failing branch refuses at warning level (raise DirectiveError(2) or return a "
+        "reporter warning; helper-held or branch-swapped guards are followed); every other file-system read reachable from "
+        "run_directive or from the run() of any registered / instantiated directive stand-in (search stopped where markdown text "
+        "re-enters the renderer) is behind its own test or only called from guarded sites. "
+        "R4: every call of the nested rST parser runs on a document whose settings are the outer document's object, a copy of it, a "
+        "complete fill or at least both switches copied (a setdefault merge or fresh defaults are violations); MockRSTParser passes its "
+        "document on; every mock handed to directives/roles exposes the renderer's real document and wraps the running renderer. "
+        "R5: no store, setattr, override-dict entry or keyword argument in the package gives either switch a value other than False "
+        "(copying the same switch from another settings object is allowed)."
     ),
     "not_decided": (
         "that third-party directives/roles honour the settings they are shown (docutils' raw/include/csv-table and Sphinx's "
         "literalinclude do, by reading); that every raw node built during rendering is attached to the tree when the filter runs; "
-        "the writer's own file access (image embedding consults file_insertion_enabled itself)"
+        "whether one shared message object is reused for several raw nodes (a tree well-formedness matter, C03); the writer's own file "
+        "access (image embedding consults file_insertion_enabled itself); file reads that are not made by a directive (the inventory "
+        "loader, fed from global-only configuration, is listed); a filter written as a side-effect comprehension (ANALYSIS-ERROR)"
     ),
     "trusted_base": [
         "CPython ast",
-        "call graph special edges (DESIGN E3)",
+        "call graph special edges (DESIGN E3) plus the module's own dispatch edges for `<x>.rules[...]`, `<x>.rules.get(...)`, getattr(<x>, f'render_...')",
         "catalogue of file-system read calls (open, io.open, codecs.open, urlopen, FileInput, .read_text/.read_bytes/.open/.read/.readlines)",
+        "docutils facts: Element.replace(old, None) is a no-op; findall() is a lazy generator, traverse() returns a list; the switches default to the ints 1/0",
     ],
     "assumptions": [
         "docutils/Sphinx directives check document.settings themselves when given the real document",
         "reporter calls return a system_message node (halt_level above WARNING)",
+        "raw nodes are instances of docutils.nodes.raw or of a package subclass of it",
     ],
 }
 
@@ -271,6 +285,10 @@ def _dispatch_targets(corpus: Corpus, call: ast.Call, fi: FunctionInfo) -> list[
         a = f.args[1]
         if isinstance(a, ast.JoinedStr) and a.values and isinstance(a.values[0], ast.Constant) and str(a.values[0].value).startswith("render_"):
             hit = True
+    elif isinstance(f, ast.Call) and isinstance(f.func, ast.Attribute) and f.func.attr in ("get", "__getitem__", "pop"):
+        v = _deref(f.func.value, fi)
+        if isinstance(v, ast.Attribute) and v.attr == "rules":
+            hit = True
     elif isinstance(f, ast.Name):
         v = _deref(f, fi)
         if v is not f and isinstance(v, (ast.Subscript, ast.Call)):
@@ -413,6 +431,23 @@ def front_ends(corpus: Corpus) -> tuple[list[FrontEnd], list[tuple[FunctionInfo,
 # R1 the raw filter
 
 
+def _is_nonempty_test(t: ast.expr, name: str) -> bool:
+    """`name`, `len(name)`, `len(name) > 0`, `name != []`: true exactly when the collection has elements."""
+    if isinstance(t, ast.Name):
+        return t.id == name
+    if isinstance(t, ast.Call) and dotted(t.func) == "len" and len(t.args) == 1:
+        return isinstance(t.args[0], ast.Name) and t.args[0].id == name
+    if isinstance(t, ast.Compare) and len(t.ops) == 1:
+        l, r = t.left, t.comparators[0]
+        if isinstance(t.ops[0], (ast.Gt, ast.NotEq)) and isinstance(r, ast.Constant) and r.value == 0:
+            return _is_nonempty_test(l, name) and isinstance(l, ast.Call)
+        if isinstance(t.ops[0], ast.GtE) and isinstance(r, ast.Constant) and r.value == 1:
+            return _is_nonempty_test(l, name) and isinstance(l, ast.Call)
+        if isinstance(t.ops[0], ast.NotEq) and isinstance(r, (ast.List, ast.Tuple)) and not r.elts:
+            return isinstance(l, ast.Name) and l.id == name
+    return False
+
+
 def _only_parent_test(t: ast.expr, v: str) -> bool:
     """The test only asks whether ``v.parent`` exists (a detached node cannot reach the output)."""
     names = [x for x in ast.walk(t) if isinstance(x, ast.Name)]
@@ -426,6 +461,25 @@ def _only_parent_test(t: ast.expr, v: str) -> bool:
         if isinstance(ppx, ast.Attribute):  # v.parent.something
             return False
     return not any(isinstance(x, ast.Call) for x in ast.walk(t))
+
+
+def _alternatives(w: ast.expr | None, fi: FunctionInfo) -> list[ast.expr] | None:
+    """When ``w`` is a local name that `_deref` cannot resolve to one value: the values of all its plain
+    assignments inside the loop (or function) the use sits in; None if it has other kinds of definitions."""
+    if not isinstance(w, ast.Name) or any(w.id in f.params for f in _chain(fi)):
+        return None
+    scope: ast.AST = fi.node
+    for a in _ancestors_local(w) if parent(w) is not None else []:
+        if isinstance(a, (ast.For, ast.While)):
+            scope = a
+            break
+    vals: list[ast.expr] = []
+    for n in walk_local(scope):
+        if isinstance(n, ast.Assign) and any(isinstance(t, ast.Name) and t.id == w.id for t in n.targets):
+            vals.append(n.value)
+        elif isinstance(n, ast.Name) and n.id == w.id and isinstance(n.ctx, ast.Store) and not isinstance(parent(n), ast.Assign):
+            return None
+    return vals or None
 
 
 def _is_create_warning(w: ast.expr, fi: FunctionInfo, corpus: Corpus | None) -> bool:
@@ -458,6 +512,14 @@ def _nullability(w: ast.expr | None, fi: FunctionInfo, corpus: Corpus | None, de
     w = _deref(w, fi)
     if w is None or depth > 4:
         return "unknown", ""
+    alts = _alternatives(w, fi)
+    if alts is not None:
+        res = [_nullability(a_, fi, corpus, depth + 1) for a_ in alts]
+        for kind in ("maybe", "unknown"):
+            for k_, why in res:
+                if k_ == kind:
+                    return kind, why
+        return "never", ""
     if isinstance(w, ast.Constant):
         return ("maybe", "it is the literal None") if w.value is None else ("never", "")
     if isinstance(w, ast.IfExp):
@@ -559,8 +621,27 @@ class Filter:
         lp, (recv, call, lazy) = cands[0]
         self.loop = lp
         self.lazy = lazy
+        anchor: ast.AST = lp
         if not cfg.postdominates(lp, edge):
-            raise Unsupported(f"{fi.module.site(lp)}: the raw loop is not reached on every path of the raw-disabled branch")
+            # `nodes_ = doc.findall(raw); if nodes_: ...; for n in nodes_:` - skipping the loop for an empty collection is harmless
+            it_name = lp.iter.id if isinstance(lp.iter, ast.Name) else None
+            cur: ast.AST = lp
+            while it_name is not None:
+                p_ = parent(cur)
+                if p_ is ifn or p_ is None or isinstance(p_, (ast.FunctionDef, ast.AsyncFunctionDef)):
+                    break
+                if isinstance(p_, ast.If):
+                    if cur in p_.body and _is_nonempty_test(p_.test, it_name):
+                        anchor = p_
+                    elif cur in p_.body and not p_.orelse:
+                        extra_ = [x for x in _leaves(p_.test) if not _is_nonempty_test(x, it_name)]
+                        self.problems.append(("test", f"the raw loop only runs when `{short(p_.test, 70)}`: with raw disabled and `{short(extra_[0] if extra_ else p_.test, 50)}` false every raw node survives", p_))
+                        anchor = p_
+                    else:
+                        break
+                cur = p_
+            if anchor is lp or not cfg.postdominates(anchor, edge):
+                raise Unsupported(f"{fi.module.site(lp)}: the raw loop is not reached on every path of the raw-disabled branch")
         cov_problem = None
         if unparse(recv) != self.root:
             cov_problem = f"the filter enumerates raw nodes of `{short(recv, 40)}`, not of the whole document `{self.root}`"
@@ -605,6 +686,25 @@ class Filter:
             return _deref(f.args[0], fi), it, not materialised  # _compat.findall(node)(cls)
         return None
 
+    def _is_raw_isinstance(self, t: ast.expr, v: str) -> bool:
+        t_ = t.operand if isinstance(t, ast.UnaryOp) and isinstance(t.op, ast.Not) else t
+        return isinstance(t_, ast.Call) and dotted(t_.func) == "isinstance" and len(t_.args) == 2 and isinstance(t_.args[0], ast.Name) and t_.args[0].id == v and _is_raw_class(t_.args[1], self.fi)
+
+    @staticmethod
+    def _derived_from(lp: ast.For, v: str) -> set[str]:
+        """Locals of the loop body computed from the loop variable (text = node.astext() ...)."""
+        out: set[str] = set()
+        for _ in range(4):
+            for n in walk_local(lp):
+                if isinstance(n, ast.Assign):
+                    used = {x.id for x in ast.walk(n.value) if isinstance(x, ast.Name)}
+                    if v in used or used & out:
+                        for tg in n.targets:
+                            for x in ast.walk(tg):
+                                if isinstance(x, ast.Name):
+                                    out.add(x.id)
+        return out
+
     def _loop_body(self, lp: ast.For, cfg) -> None:
         fi = self.fi
         if not isinstance(lp.target, ast.Name):
@@ -630,32 +730,31 @@ class Filter:
             raise Unsupported(f"{fi.module.site(lp)}: the raw filter loop neither replaces nor removes `{v}` in a recognised form")
         stmts = {id(cfg.stmt_of(c)) for c, _, _ in muts}
         if cfg.paths_avoiding(("T", lp), lp, lambda n: id(n) in stmts):
-            # some iteration leaves the node in place: is the skip decided by the node's content?
-            content_tests = []
-            for n in walk_local(lp):
-                if isinstance(n, (ast.If, ast.IfExp)):
-                    for x in ast.walk(n.test):
-                        if isinstance(x, ast.Name) and x.id == v:
-                            px = parent(x)
-                            if isinstance(px, (ast.Subscript, ast.Compare)) or (isinstance(px, ast.Attribute) and px.attr != "parent"):
-                                content_tests.append(n.test)
+            # some iteration leaves the node in place.  Harmless only when the node is detached (`v.parent is None`)
+            # or the test is a tautological type check; any other skip lets an attached raw node survive.
             all_tests = [n.test for n in walk_local(lp) if isinstance(n, (ast.If, ast.IfExp))]
+            done = False
             # skipped when the replacement is None?
             for _c, kind_, new_ in muts:
                 if kind_ == "replace" and isinstance(new_, ast.Name) and any(any(isinstance(x, ast.Name) and x.id == new_.id for x in ast.walk(t)) for t in all_tests):
                     nb, why_nb = _nullability(_deref(new_, fi), fi, self.corpus)
                     if nb == "maybe":
                         self.problems.append(("replacement-not-none", f"the raw node is only replaced when `{new_.id}` is not None, and it can be None ({why_nb}): in that case the node is neither replaced nor removed and stays in the document", _c))
-                        content_tests = None
+                        done = True
                         break
-            if content_tests is None:
-                pass  # reported above
-            elif not content_tests and all_tests and all(_only_parent_test(t, v) for t in all_tests):
-                self.oks.append(("every-node", f"each raw node that is attached to a parent is replaced/removed (`{short(all_tests[0], 40)}` only skips detached nodes)", muts[0][0]))
-            elif content_tests:
-                self.problems.append(("every-node", f"raw nodes are only replaced depending on `{short(content_tests[0], 60)}`; the others survive with raw disabled", content_tests[0]))
-            else:
-                raise Unsupported(f"{fi.module.site(muts[0][0])}: the replacement of `{v}` is conditional in a way the rule does not understand")
+            if not done:
+                harmless = [t for t in all_tests if _only_parent_test(t, v) or self._is_raw_isinstance(t, v)]
+                other = [t for t in all_tests if t not in harmless]
+                if all_tests and not other:
+                    self.oks.append(("every-node", f"each raw node that is attached to a parent is replaced/removed (`{short(all_tests[0], 40)}` only skips detached nodes)", muts[0][0]))
+                elif other:
+                    t0 = other[0]
+                    derived = self._derived_from(lp, v)
+                    names = {x.id for x in ast.walk(t0) if isinstance(x, ast.Name)}
+                    about = "the node's own content" if (v in names or names & derived) else "something other than the node"
+                    self.problems.append(("every-node", f"the loop skips raw nodes depending on `{short(t0, 70)}` ({about}): every raw node it skips stays in the document although raw content is disabled", t0))
+                else:
+                    raise Unsupported(f"{fi.module.site(muts[0][0])}: the replacement of `{v}` can be skipped in a way the rule does not understand")
         else:
             self.oks.append(("every-node", f"each raw node is replaced/removed on every iteration ({len(muts)} mutation site(s))", muts[0][0]))
         # removal (or list-splicing) while docutils' lazy findall() generator is walking the parent's child list
@@ -708,6 +807,10 @@ def _levels(w: ast.expr | None, fi: FunctionInfo, corpus: Corpus | None, depth: 
     w = _deref(w, fi)
     if w is None or depth > 4:
         return None
+    alts = _alternatives(w, fi)
+    if alts is not None:
+        parts_ = [_levels(a_, fi, corpus, depth + 1) for a_ in alts]
+        return None if any(p_ is None for p_ in parts_) else set().union(*parts_)
     if isinstance(w, ast.Constant) and w.value is None:
         return set()
     if isinstance(w, ast.IfExp):
@@ -1818,6 +1921,14 @@ def mutants(corpus: Corpus):
                 src3c = splice(dm.src, rs3, f"if {unparse(wst.targets[0])} is not None:\n{indent_of(parse, rs3)}    " + segment(dm.src, rs3))
                 src3c = splice(src3c, wst.value, 'create_warning(document, "Raw content disabled.", MystWarnings.NOT_SUPPORTED)')
                 out.append(Mutant("c20-filter-replacement-guarded-without-fallback", "C20.R1", dm.rel, src3c, expect="replacement-not-none"))
+        # 3d. the loop skips some raw nodes (by a local derived from the node / by something unrelated to the node)
+        if wst is not None:
+            wi = indent_of(parse, wst)
+            lv_ = find_node(parse, lambda n: isinstance(n, ast.For) and "nodes.raw" in unparse(n.iter))
+            if lv_ is not None:
+                vn = lv_.target.id
+                out.append(Mutant("c20-filter-skips-by-derived-text", "C20.R1", dm.rel, splice(dm.src, wst, f"text = {vn}.astext().strip()\n{wi}if text.startswith('<!--') and text.endswith('-->'):\n{wi}    continue\n{wi}" + segment(dm.src, wst)), expect="raw filter|every-node"))
+                out.append(Mutant("c20-filter-skips-by-config", "C20.R1", dm.rel, splice(dm.src, wst, f"if config.gfm_only:\n{wi}    continue\n{wi}" + segment(dm.src, wst)), expect="raw filter|every-node"))
         # 4. extra condition
         out.append(Mutant("c20-filter-extra-condition", "C20.R1", dm.rel, splice(dm.src, flt.test, segment(dm.src, flt.test) + " and not config.gfm_only"), expect="raw filter|test"))
         loop = find_node(parse, lambda n: isinstance(n, ast.For) and "nodes.raw" in unparse(n.iter))
@@ -1859,6 +1970,10 @@ def mutants(corpus: Corpus):
         swst = find_node(sparse, lambda n: isinstance(n, ast.Assign) and isinstance(n.value, ast.Call) and isinstance(n.value.func, ast.Attribute) and n.value.func.attr == "warning" and unparse(n.value.func.value).endswith("reporter") and sflt.lineno <= n.lineno <= sflt.end_lineno)
         if swst is not None:
             out.append(Mutant("c20-sphinx-filter-replacement-suppressible", "C20.R1", sm.rel, splice(sm.src, swst.value, 'create_warning(document, "Raw content disabled.", MystWarnings.NOT_SUPPORTED, line=node.line)'), expect="replacement-not-none"))
+            swi = indent_of(sparse, swst)
+            sl_ = find_node(sparse, lambda n: isinstance(n, ast.For) and "nodes.raw" in unparse(n.iter))
+            if sl_ is not None:
+                out.append(Mutant("c20-sphinx-filter-skips-other-formats", "C20.R1", sm.rel, splice(sm.src, swst, f"if 'html' not in {sl_.target.id}.get('format', '').split():\n{swi}    continue\n{swi}" + segment(sm.src, swst)), expect="raw filter|every-node"))
     else:
         out.append(("c20-sphinx-filter-reverted", "no raw filter in MystParser.parse"))
     if flt is not None:
